@@ -13,7 +13,8 @@
 //	codec=<1|0>                       the Go tree read from the msgpack bytes equals the one read from the JSON
 //
 // Case lines: "V <value>" (see value.go), "W <k> <i> <schedule seed> <value>*k" (the i-th value of an
-// interleaved history: stable=<1|0> says whether its encodings kept their bytes), "E <current value> ~ <initial value> ~ <changes>" (mutate.go: the object after
+// interleaved history: stable=<1|0> says whether its encodings kept their bytes), "T <n> <value>" (interp.go: observed in the n-th of two fresh interpreters),
+// "E <initial value> ~ <changes>" (mutate.go: the object after
 // in-place changes, encoded before and after), "Q <cps>" (string quoting alone).
 package main
 
@@ -855,6 +856,10 @@ func main() {
 	nm := n / 15
 	mutationStream(r, g, rng, nm)
 	out.Extra["mutation_histories"] = nm
+	// 8. further interpreters in the same process
+	ni := n / 150
+	interpreterStream(r, g, rng, ni)
+	out.Extra["interpreter_pairs"] = ni + 2
 	out.Extra["max_depth"] = 5
 	out.Close(a.Stats)
 }
@@ -881,14 +886,19 @@ func replay(r *runner, path string) {
 		r.quote(s, "replay")
 		return
 	}
-	if len(toks) >= 2 && toks[0] == "E" {
-		// E <current> ~ <initial> ~ <ops>: rebuild the initial value and redo the changes
-		p := 1
-		if _, err := parseValue(toks, &p); err != nil || p >= len(toks) || toks[p] != "~" {
-			fmt.Fprintln(os.Stderr, "replay: cannot read the mutation history")
+	if len(toks) >= 3 && toks[0] == "T" {
+		p := 2
+		v, err := parseValue(toks, &p)
+		if err != nil {
+			fmt.Fprintln(os.Stderr, "replay: cannot read the value:", err)
 			os.Exit(2)
 		}
-		p++
+		r.twoInterpreters([]*gv{v}, true, "replay")
+		return
+	}
+	if len(toks) >= 2 && toks[0] == "E" {
+		// E <initial> ~ <ops>: rebuild the initial value and redo the changes
+		p := 1
 		v0, err := parseValue(toks, &p)
 		if err != nil || p >= len(toks) || toks[p] != "~" {
 			fmt.Fprintln(os.Stderr, "replay: cannot read the initial value of the mutation history")
